@@ -751,6 +751,12 @@ pub fn gen(tier: &str, seed: u64, out: &mut dyn Write) {
     let depths: &[usize] = if thorough { &[100, 1000, 5000, 20000, 100000, 400000] } else { &[100, 2000, 20000, 100000] };
     for s in DEEP_STREAMS {
         for d in depths {
+            // the designspace lib reader is super-linear in the nesting depth (depth 3000: about a minute,
+            // 5000: several minutes; it does terminate) - keep the moderate depths small for this stream;
+            // the large ones exhaust the stack at once
+            if *s == "deep-designspace-lib" && *d > 500 && *d < 20000 {
+                continue;
+            }
             let o = run_child(s, *d, &scratch);
             writeln!(out, "C03 deep {} {} => {}", s, d, o).unwrap();
         }
